@@ -33,6 +33,8 @@ type c18Case struct {
 	TLS       string            `json:"tls"` // disable | certificate
 	HostSel   string            `json:"host_selection"`
 	QueryKey  bool              `json:"query_token_key"`
+	EmptyHosts bool             `json:"hosts_present_but_empty,omitempty"` // (only with 0 hosts) the file says "Hosts: []" instead of leaving the setting out
+	Issuer    bool              `json:"query_token_issuer,omitempty"`      // a query-token issuer is configured (it does not make up for a missing key)
 	EmptyKey  bool              `json:"query_token_key_present_but_empty,omitempty"` // (only without a key) the setting is there, its value is the empty string
 	NHosts    int               `json:"hosts"`
 	Keytab    bool              `json:"keytab"`
@@ -54,7 +56,9 @@ func genC18(t *rapid.T) c18Case {
 	c.HostSel = rapid.SampledFrom([]string{"roundrobin", "signed", "signed", "signed", "unsigned", "any", "Signed", "SIGNED", "signed ", "RoundRobin"}).Draw(t, "hostsel")
 	c.QueryKey = rapid.Bool().Draw(t, "querykey")
 	c.EmptyKey = !c.QueryKey && rapid.Bool().Draw(t, "emptykey")
+	c.Issuer = rapid.Bool().Draw(t, "issuer")
 	c.NHosts = rapid.SampledFrom([]int{0, 1, 1, 2, 3}).Draw(t, "nhosts")
+	c.EmptyHosts = c.NHosts == 0 && rapid.Bool().Draw(t, "emptyHosts")
 	c.Keytab = rapid.Bool().Draw(t, "keytab")
 	c.TokenAuth = rapid.SampledFrom([]string{"true", "false", "default"}).Draw(t, "tokenauth")
 	for _, s := range c18Settings {
@@ -168,6 +172,12 @@ func (c c18Case) build() (gwproc.Config, []string) {
 	} else if c.EmptyKey {
 		// no key: an empty value in the file, an empty variable, or an empty variable blanking a key from the file
 		put("querykey", "Security", "QueryTokenSigningKey", "RDPGW_SECURITY__QUERY_TOKEN_SIGNING_KEY", "", "another-query-signing-key-32-ch!")
+	}
+	if c.Issuer {
+		cfg.Set("Security", "QueryTokenIssuer", "portal")
+	}
+	if c.NHosts == 0 && c.EmptyHosts {
+		cfg.Set("Server", "Hosts", []string{})
 	}
 	if c.NHosts > 0 {
 		var hs []string
